@@ -67,6 +67,34 @@ class Poly:
     def vars(self):
         return {v for m in self.t for v, _ in m}
 
+    def subst(self, var, val):
+        """Replace every power var^e by val^e (val: Rat); returns a Rat."""
+        out = Rat(Poly())
+        cache = {0: Rat.const(1)}
+        for m, c in self.t.items():
+            e = dict(m).get(var, 0)
+            rest = tuple((v, k) for v, k in m if v != var)
+            if e not in cache:
+                r = Rat.const(1)
+                for _ in range(e):
+                    r = r * val
+                cache[e] = r
+            out = out + Rat(Poly({rest: c})) * cache[e]
+        return out
+
+    def reduce_square(self, var, val):
+        """Use var^2 == val (val: Rat): even powers are replaced, an odd power keeps one factor var."""
+        out = Rat(Poly())
+        for m, c in self.t.items():
+            e = dict(m).get(var, 0)
+            rest = tuple((v, k) for v, k in m if v != var)
+            term = Rat(Poly({rest + (((var, 1),) if e % 2 else ()): c})) if e % 2 == 0 else Rat(Poly({tuple(sorted(rest + ((var, 1),))): c}))
+            r = Rat.const(1)
+            for _ in range(e // 2):
+                r = r * val
+            out = out + term * r
+        return out
+
     def __repr__(self):
         if not self.t:
             return "0"
@@ -138,12 +166,48 @@ class Rat:
     def is_zero(self):
         return self.n.is_zero()
 
+    def subst(self, var, val):
+        return self.n.subst(var, val) / self.d.subst(var, val)
+
+    def reduce_square(self, var, val):
+        return self.n.reduce_square(var, val) / self.d.reduce_square(var, val)
+
+    def vars(self):
+        return self.n.vars() | self.d.vars()
+
     def same(self, o):
         return (self.n * o.d - o.n * self.d).is_zero()
 
     def __repr__(self):
         s = repr(self.n) if self.d == Poly.const(1) else "(%r) / (%r)" % (self.n, self.d)
         return "%s(%s)" % (self.tag, s) if self.tag else s
+
+
+def dqt_(n):
+    t = n.get("type") or {}
+    return t.get("desugaredQualType", t.get("qualType", ""))
+
+
+def _canon_rat(r):
+    return repr(r)
+
+
+STMT_KINDS = ("CompoundStmt", "ReturnStmt", "IfStmt", "BinaryOperator", "CompoundAssignOperator", "CXXOperatorCallExpr", "CallExpr",
+              "CXXMemberCallExpr", "ExprWithCleanups", "DeclStmt", "ForStmt", "WhileStmt", "BreakStmt", "ContinueStmt", "NullStmt", "UnaryOperator")
+
+
+def _always_returns(s):
+    if s is None:
+        return False
+    if s.get("kind") == "ReturnStmt":
+        return True
+    if s.get("kind") == "CompoundStmt":
+        ks = [c for c in kids(s) if isinstance(c, dict) and c.get("kind")]
+        return bool(ks) and _always_returns(ks[-1])
+    return False
+
+
+UFUNCS = {}        # uninterpreted function symbol -> (function name, [argument normal forms])
 
 
 CASTS = ("CXXStaticCastExpr", "CStyleCastExpr", "CXXFunctionalCastExpr", "ImplicitCastExpr", "ParenExpr", "ExprWithCleanups",
@@ -157,12 +221,42 @@ def _skip(e):
     return e
 
 
+class Agg:
+    """A point-like aggregate: explicit fields, or (base given) the fields of a symbolic object `base.x`, `base.y` ..."""
+    __slots__ = ("f", "base")
+
+    def __init__(self, fields=None, base=None):
+        self.f = dict(fields or {})
+        self.base = base
+
+    def get(self, name):
+        if name in self.f:
+            return self.f[name]
+        if self.base is not None:
+            return Rat.var("%s.%s" % (self.base, name))
+        raise Unsupported("field %s of an aggregate without it" % name)
+
+    def __repr__(self):
+        return "{%s}" % ", ".join("%s: %r" % kv for kv in sorted(self.f.items())) if self.base is None else "<%s>" % self.base
+
+
+POINTY = ("Point<", "Point64", "PointD")
+
+
+def _is_pointy(t):
+    t = t or ""
+    return any(p in t for p in POINTY) and "vector" not in t and "Path" not in t
+
+
 class PolyEval:
-    def __init__(self, db, env=None):
+    def __init__(self, db, env=None, extended=False):
         self.db = db
-        self.env = dict(env or {})       # decl id -> Rat
+        self.env = dict(env or {})       # decl id -> Rat | Agg
         self.rounded = False
         self.clamps = 0
+        self.extended = extended         # aggregates, inlining of straight-line library functions, uninterpreted function symbols
+        self.on_expr = None              # (evaluator, expression statement)
+        self.depth = 0
         self.on_store = None             # (evaluator, lhs node, rhs node, stmt): stores to anything but a plain local, in source order
         self.on_return = None            # (evaluator, value node, stmt)
 
@@ -173,18 +267,61 @@ class PolyEval:
         if k == "DeclRefExpr":
             return e.get("referencedDecl", {}).get("name")
         if k == "MemberExpr" and kids(e):
+            if _skip(kids(e)[0]).get("kind") == "CXXThisExpr":
+                return e.get("name")
             b = self.sym_of(kids(e)[0])
             if b is None:
                 return None
             return "%s.%s" % (b, e.get("name"))
+        if k == "MemberExpr" and not kids(e):
+            return e.get("name")                    # implicit this
         if k == "CXXOperatorCallExpr":
             ks = kids(e)
             op = _skip(ks[0]).get("referencedDecl", {}).get("name", "")
             if op in ("operator->", "operator*") and len(ks) == 2:
                 return self.sym_of(ks[1])
+            if op == "operator[]" and len(ks) == 3 and self.extended:
+                b = self.sym_of(ks[1])
+                i = _skip(ks[2])
+                if b is not None and i.get("kind") in ("DeclRefExpr", "IntegerLiteral"):
+                    return "%s[%s]" % (b, i.get("referencedDecl", {}).get("name") if i.get("kind") == "DeclRefExpr" else i.get("value"))
         if k == "UnaryOperator" and e.get("opcode") == "*":
             return self.sym_of(kids(e)[0])
+        if k == "CXXThisExpr":
+            return "this"
         return None
+
+    def _agg_of(self, e):
+        """Aggregate value of a point-typed expression (extended mode)."""
+        e0 = _skip(e)
+        k = e0.get("kind")
+        if k == "DeclRefExpr" and e0.get("referencedDecl", {}).get("id") in self.env:
+            v = self.env[e0["referencedDecl"]["id"]]
+            if isinstance(v, Agg):
+                return v
+            raise Unsupported("scalar used as aggregate")
+        if k in ("CXXConstructExpr", "CXXTemporaryObjectExpr", "InitListExpr", "CXXFunctionalCastExpr"):
+            args = [a for a in kids(e0) if isinstance(a, dict) and a.get("kind") and a.get("kind") != "CXXDefaultArgExpr"]
+            if len(args) == 0:
+                return Agg({"x": Rat.const(0), "y": Rat.const(0), "z": Rat.const(0)})
+            if len(args) == 1:
+                return self._agg_of(args[0])
+            f = {"x": self.ev(args[0]), "y": self.ev(args[1])}
+            if len(args) >= 3:
+                try:
+                    f["z"] = self.ev(args[2])
+                except Unsupported:
+                    pass
+            return Agg(f)
+        if k in ("CallExpr", "CXXMemberCallExpr", "CXXOperatorCallExpr"):
+            v = self._call(e0)
+            if isinstance(v, Agg):
+                return v
+            raise Unsupported("call does not yield an aggregate")
+        s = self.sym_of(e0)
+        if s is not None:
+            return Agg(base=s.replace("this.", ""))
+        raise Unsupported("aggregate %s" % k)
 
     def ev(self, e):
         e = _skip(e)
@@ -199,8 +336,19 @@ class PolyEval:
             if rd.get("id") in self.env:
                 return self.env[rd["id"]]
             if rd.get("kind") in ("ParmVarDecl", "VarDecl"):
+                if self.extended and _is_pointy(dqt_(e)):
+                    return Agg(base=rd.get("name"))
                 return Rat.var(rd.get("name"))
             raise Unsupported("reference to %s" % rd.get("kind"))
+        if self.extended and k in ("CXXConstructExpr", "CXXTemporaryObjectExpr") and _is_pointy(dqt_(e)):
+            return self._agg_of(e)
+        if self.extended and k == "MemberExpr" and ks:
+            b = _skip(ks[0])
+            if b.get("kind") == "CXXThisExpr":
+                return Rat.var(e.get("name"))
+            if (b.get("kind") == "DeclRefExpr" and isinstance(self.env.get(b.get("referencedDecl", {}).get("id")), Agg)) or \
+                    b.get("kind") in ("CallExpr", "CXXMemberCallExpr", "CXXConstructExpr", "CXXTemporaryObjectExpr"):
+                return self._agg_of(b).get(e.get("name"))
         if k == "MemberExpr":
             s = self.sym_of(e)
             if s is None:
@@ -208,7 +356,7 @@ class PolyEval:
             b = _skip(ks[0]) if ks else None
             if b is not None and b.get("kind") == "DeclRefExpr" and b.get("referencedDecl", {}).get("id") in self.env:
                 raise Unsupported("member of a bound local")
-            return Rat.var(s)
+            return Rat.var(s.replace("this.", ""))
         if k == "UnaryOperator":
             op = e.get("opcode")
             if op == "-":
@@ -228,6 +376,8 @@ class PolyEval:
                     return a * b
                 return a / b
             raise Unsupported("binary %s" % op)
+        if k in ("CallExpr", "CXXMemberCallExpr", "CXXOperatorCallExpr") and self.extended:
+            return self._call(e)
         if k in ("CallExpr", "CXXMemberCallExpr"):
             name = self.db.callee(e)[0]
             args = self.db.call_args(e)
@@ -255,6 +405,55 @@ class PolyEval:
             raise Unsupported("call of %s" % name)
         raise Unsupported("%s" % k)
 
+    def _call(self, e):
+        """Extended mode: rounding is transparent; a straight-line library function is evaluated on the normal forms of its arguments;
+        any other call with arithmetic arguments becomes an uninterpreted function symbol of those normal forms."""
+        db = self.db
+        name = db.callee(e)[0]
+        args = db.call_args(e) if e.get("kind") != "CXXOperatorCallExpr" else kids(e)[1:]
+        if e.get("kind") == "CXXOperatorCallExpr" and name in ("operator[]", "operator->", "operator*"):
+            s = self.sym_of(e)
+            if s is None:
+                raise Unsupported("subscript of a computed object")
+            return Agg(base=s) if _is_pointy(dqt_(e)) else Rat.var(s)
+        if name in ROUNDERS and len(args) == 1:
+            self.rounded = True
+            return self.ev(args[0])
+        if name == "Sqr" and len(args) == 1:
+            v = self.ev(args[0])
+            return v * v
+        g = db.callee_func(e)
+        vals = []
+        for a in args:
+            try:
+                vals.append(self._agg_of(a) if _is_pointy(dqt_(_skip(a))) else self.ev(a))
+            except Unsupported:
+                vals.append(None)
+        if g is not None and g.body is not None and self.depth < 4 and g.file and ("/clipper2/" in g.file or "/Clipper2Lib/" in g.file) \
+                and all(v is not None for v in vals) and len(vals) <= len(g.params):
+            sub = PolyEval(db, {}, extended=True)
+            sub.depth = self.depth + 1
+            for p0, v in zip(g.params, vals):
+                sub.env[p0.get("id")] = v
+            outs = []
+
+            def on_return(ev, v, s):
+                try:
+                    outs.append(ev._agg_of(v) if _is_pointy(dqt_(_skip(v))) else ev.ev(v))
+                except Unsupported:
+                    outs.append(None)
+            sub.on_return = on_return
+            sub.top_returns_only = True
+            sub.bind_block(g.body)
+            self.rounded = self.rounded or sub.rounded
+            if outs and outs[-1] is not None:
+                return outs[-1]
+        if all(isinstance(v, Rat) and not v.tag for v in vals) and vals:
+            sym = "%s(%s)" % (name, ", ".join(_canon_rat(v) for v in vals))
+            UFUNCS[sym] = (name, list(vals))
+            return Rat.var(sym)
+        raise Unsupported("call of %s" % name)
+
     def bind_block(self, node, conditional=False):
         """Walk statements in source order, binding locals (opaque when their initialiser is not arithmetic).  A re-assignment of an
         already bound local under a condition (a clamp such as `if (q < 0) q = 0;`) is not followed: the normal form is the one of
@@ -262,6 +461,8 @@ class PolyEval:
         for s in kids(node):
             if not isinstance(s, dict):
                 continue
+            while s.get("kind") == "ExprWithCleanups" and kids(s):
+                s = kids(s)[0]
             k = s.get("kind")
             if k == "DeclStmt":
                 for d in kids(s):
@@ -271,9 +472,12 @@ class PolyEval:
                     if not init:
                         continue
                     try:
-                        self.env[d["id"]] = self.ev(init[-1])
+                        if self.extended and _is_pointy(dqt_(d)):
+                            self.env[d["id"]] = self._agg_of(init[-1])
+                        else:
+                            self.env[d["id"]] = self.ev(init[-1])
                     except Unsupported:
-                        self.env[d["id"]] = Rat.var("<%s>" % d.get("name"))
+                        self.env[d["id"]] = Agg(base="<%s>" % d.get("name")) if (self.extended and _is_pointy(dqt_(d))) else Rat.var("<%s>" % d.get("name"))
             elif k == "BinaryOperator" and s.get("opcode") == "=":
                 l = _skip(kids(s)[0])
                 if l.get("kind") == "DeclRefExpr" and l.get("referencedDecl", {}).get("kind") == "VarDecl":
@@ -286,11 +490,40 @@ class PolyEval:
                         self.env[l["referencedDecl"]["id"]] = Rat.var("<%s>" % l["referencedDecl"].get("name"))
                 elif self.on_store is not None:
                     self.on_store(self, l, kids(s)[1], s)
+            elif k == "CompoundAssignOperator" and s.get("opcode") in ("+=", "-=", "*=", "/="):
+                l = _skip(kids(s)[0])
+                if l.get("kind") == "DeclRefExpr" and l.get("referencedDecl", {}).get("id") in self.env and not conditional:
+                    vid = l["referencedDecl"]["id"]
+                    try:
+                        a, b = self.env[vid], self.ev(kids(s)[1])
+                        op = s.get("opcode")[0]
+                        self.env[vid] = a + b if op == "+" else (a - b if op == "-" else (a * b if op == "*" else a / b))
+                    except (Unsupported, TypeError):
+                        self.env[vid] = Rat.var("<%s>" % l["referencedDecl"].get("name"))
+                elif l.get("kind") == "DeclRefExpr" and conditional:
+                    self.clamps += 1
+            elif k == "CXXOperatorCallExpr" and self.extended and self.db.callee(s)[0] == "operator=" and len(kids(s)) == 3:
+                l = _skip(kids(s)[1])
+                if l.get("kind") == "DeclRefExpr" and l.get("referencedDecl", {}).get("kind") == "VarDecl":
+                    if conditional and l["referencedDecl"].get("id") in self.env:
+                        self.clamps += 1
+                        continue
+                    try:
+                        self.env[l["referencedDecl"]["id"]] = self._agg_of(kids(s)[2])
+                    except Unsupported:
+                        self.env[l["referencedDecl"]["id"]] = Agg(base="<%s>" % l["referencedDecl"].get("name"))
+            elif k in ("CallExpr", "CXXMemberCallExpr", "ExprWithCleanups") and self.on_expr is not None:
+                self.on_expr(self, s)
             elif k == "CompoundStmt":
                 self.bind_block(s, conditional)
             elif k == "IfStmt":
-                for c in kids(s)[1:]:
-                    if isinstance(c, dict) and c.get("kind"):
-                        self.bind_block({"inner": [c]}, True)
+                from .astq import if_parts
+                _cond, then, els = if_parts(s)
+                if then is not None:
+                    self.bind_block({"inner": [then]}, True)
+                if els is not None:
+                    self.bind_block({"inner": [els]}, conditional if _always_returns(then) else True)
             elif k == "ReturnStmt" and self.on_return is not None and kids(s):
+                if conditional and getattr(self, "top_returns_only", False):
+                    continue                      # an early return under a guard (degenerate input) is not the function's formula
                 self.on_return(self, kids(s)[0], s)
